@@ -278,6 +278,28 @@ CLAIMS["C13"] = dict(
          "nothing are outside the domain; bounds are float32-exact.",
     design="3/C13")
 
+CLAIMS["C05"] = dict(
+    technique="round trip / differential over construction paths: "
+              "exhaustive small graphs + Hypothesis-generated graphs, "
+              "weights and link attributes, the generated inputs being "
+              "the model",
+    text="Every case (all graphs on 2..4 nodes undirected / 2..3 directed; "
+         "generated graphs up to 12 nodes; 0- and 1-link networks with "
+         "isolated nodes over-represented) is pushed through 11 "
+         "constructor paths (dense list / ndarray of 4 dtypes, 4 "
+         "scipy.sparse formats, edge list as list and array), "
+         "re-assignment of adjacency / edge list on an existing object, "
+         "FromIGraph, copy, undirected_copy, permuted_copy(identity), "
+         "save->Load in graphml / graphmlz / pickle / gml, and "
+         "SpatialNetwork / GeoNetwork (each weight type, adjacency and "
+         "edge-list construction, save->Load with grid files): N, n_links, "
+         "link_density, adjacency, sp_A, embedded graph, node weights with "
+         "total and mean, every link attribute agree with the input; the "
+         "original object is unchanged afterwards.",
+    note="Trusted: the generated inputs as model. Text formats compared "
+         "with 1e-12 on dyadic values, float32 geographic weights 2e-6.",
+    design="3/C05")
+
 NOT_CLAIMED = {}
 
 
